@@ -1,5 +1,6 @@
 import WzVerif.Driver.Proto
 import WzVerif.Model.Conditional
+import WzVerif.Driver.PyPrelude
 namespace Wz.Driver.C11
 open Wz Wz.Proto Wz.Cond
 
@@ -77,6 +78,6 @@ def handle : Handler
         | some b => rangeWrapSeek chunks.flatten b start len
         | none => rangeWrapIter chunks start len))
     | _, _, _, _ => some badArgs
-  | _, _ => none
+  | cmd, args => Wz.Driver.PyPrelude.handle cmd args  -- `pre.*`: primitives of Util/PyPrelude
 
 end Wz.Driver.C11
